@@ -584,11 +584,11 @@ def _load_theorems(pid):
 
 
 CONN_PROFILES = [
-    {"name": "conn-client-flow", "quick": 80, "thorough": 500, "shards": {"quick": 1, "thorough": 10}},
-    {"name": "conn-client", "quick": 80, "thorough": 500, "shards": {"quick": 1, "thorough": 10}},
-    {"name": "conn-server", "quick": 80, "thorough": 500, "shards": {"quick": 1, "thorough": 10}},
-    {"name": "conn-c09-client", "quick": 100, "thorough": 1500, "shards": {"quick": 1, "thorough": 4}},
-    {"name": "conn-c09-server", "quick": 100, "thorough": 1500, "shards": {"quick": 1, "thorough": 4}},
+    {"name": "conn-client-flow", "quick": 70, "thorough": 500, "shards": {"quick": 2, "thorough": 10}},
+    {"name": "conn-client", "quick": 70, "thorough": 500, "shards": {"quick": 2, "thorough": 10}},
+    {"name": "conn-server", "quick": 70, "thorough": 500, "shards": {"quick": 2, "thorough": 10}},
+    {"name": "conn-c09-client", "quick": 80, "thorough": 1500, "shards": {"quick": 2, "thorough": 4}},
+    {"name": "conn-c09-server", "quick": 80, "thorough": 1500, "shards": {"quick": 2, "thorough": 4}},
 ]
 
 CONN_ASSUMPTIONS = [
